@@ -213,6 +213,44 @@ func recordFaults(r *vlib.Run) {
 			}
 		}
 	}
+	// a second base state: the record of //:u says that a build died inside its body
+	// ("rerun": true, as the in-progress mark leaves it). Without damage //:u is re-executed;
+	// a damaged record must not turn that into "up to date".
+	baseB := filepath.Join(r.Scratch, "rfbaseB")
+	copyDir(base, baseB)
+	var fileB string
+	var origB []byte
+	for _, f := range files {
+		if strings.HasSuffix(f, "targets/%2Fu") {
+			var rec map[string]any
+			if json.Unmarshal(orig[f], &rec) == nil {
+				rec["rerun"] = true
+				origB, _ = json.Marshal(rec)
+				fileB = f
+				os.WriteFile(filepath.Join(baseB, f), origB, 0o644)
+			}
+		}
+	}
+	if fileB == "" {
+		vlib.Fatalf("record of //:u not found among %v", files)
+	}
+	if out := rfBuild(baseB, false); !strings.HasPrefix(out, "executed") || !strings.Contains(out, "//:u") {
+		vlib.Fatalf("record-fault project B: //:u is not re-executed though marked in progress: %s", out)
+	}
+	os.RemoveAll(baseB)
+	copyDir(base, baseB)
+	os.WriteFile(filepath.Join(baseB, fileB), origB, 0o644)
+	for p := 0; p <= len(origB); p++ {
+		cases = append(cases, rfCase{file: fileB, kind: "B:truncate", pos: p})
+		if p < len(origB) {
+			cases = append(cases, rfCase{file: fileB, kind: "B:delete", pos: p})
+			for _, v := range subst {
+				if byte(v) != origB[p] {
+					cases = append(cases, rfCase{file: fileB, kind: "B:subst", pos: p, val: v})
+				}
+			}
+		}
+	}
 	// structural edits of the environments in function-target records
 	type sedit struct {
 		file, desc string
@@ -336,10 +374,15 @@ func recordFaults(r *vlib.Run) {
 		}
 		root := filepath.Join(r.Scratch, "rf")
 		os.RemoveAll(root)
-		copyDir(base, root)
 		o := orig[c.file]
+		if strings.HasPrefix(c.kind, "B:") {
+			copyDir(baseB, root)
+			o = origB
+		} else {
+			copyDir(base, root)
+		}
 		var m []byte
-		switch c.kind {
+		switch strings.TrimPrefix(c.kind, "B:") {
 		case "truncate":
 			m = append([]byte{}, o[:c.pos]...)
 		case "delete":
